@@ -314,10 +314,20 @@ func runC15(sc *Scenario, keepLog bool) *RunReport {
 				}
 				_ = json.Unmarshal([]byte(op.Schema), &sch)
 				wantValid = false
+				anyInvalid := false
 				for pat := range sch.PP {
-					if c, m := stdExpect(pat, op.Str); c && m {
+					c, m := stdExpect(pat, op.Str)
+					if c && m {
 						wantValid = true
 					}
+					if !c {
+						anyInvalid = true
+					}
+				}
+				if anyInvalid && !got.Valid && got.Panic == "" {
+					// an invalid pattern among them: rejecting the document (however it is worded) is a way of reporting it;
+					// what must not happen is that the member is accepted although no pattern that compiles matches it
+					continue
 				}
 			}
 			if got.Panic != "" {
